@@ -915,7 +915,12 @@ func getEventTime(etHeader string) time.Time {
 		// Great, they sent us a time header. let's try and parse it.
 		// RFC3339Nano is the default that we send from all our SDKs
 		eventTime, _ = time.Parse(time.RFC3339Nano, etHeader)
-		if eventTime.IsZero() {
+		if sec, nsec, ok := splitEpochDigits(etHeader); ok && eventTime.IsZero() {
+			// ten or more decimal digits: seconds followed by a fraction of a
+			// second (milli-, micro- or nanoseconds). Integer arithmetic keeps
+			// every digit; a float64 cannot hold 13 to 19 significant digits.
+			eventTime = time.Unix(sec, nsec)
+		} else if eventTime.IsZero() {
 			// the default didn't catch it, let's try a few other things
 			// is it all numeric? then try unix epoch times
 			epochInt, err := strconv.ParseInt(etHeader, 0, 64)
@@ -944,6 +949,33 @@ func getEventTime(etHeader string) time.Time {
 		}
 	}
 	return eventTime.UTC()
+}
+
+// splitEpochDigits splits a string of at least ten decimal digits into the
+// Unix seconds given by its first ten digits and the nanoseconds given by the
+// remaining digits, read as a decimal fraction of a second (digits beyond
+// nanosecond resolution are dropped).
+func splitEpochDigits(s string) (sec int64, nsec int64, ok bool) {
+	if len(s) < 10 {
+		return 0, 0, false
+	}
+	for i := 0; i < len(s); i++ {
+		if s[i] < '0' || s[i] > '9' {
+			return 0, 0, false
+		}
+	}
+	sec, _ = strconv.ParseInt(s[:10], 10, 64)
+	frac := s[10:]
+	if len(frac) > 9 {
+		frac = frac[:9]
+	}
+	if frac != "" {
+		nsec, _ = strconv.ParseInt(frac, 10, 64)
+		for i := len(frac); i < 9; i++ {
+			nsec *= 10
+		}
+	}
+	return sec, nsec, true
 }
 
 func makeDecoders(concurrency int) (*zstd.Decoder, error) {
